@@ -24,8 +24,8 @@ Print Assumptions C09_each_edge_keeps_its_delay.
 Definition C09_full_statement : Prop :=
   forall c n, wf c = true -> g_delays_ge2 c = true -> impl_run c n = Ok (spec_run c n).
 
-(* ---- what holds: under the guards (Euler; no undelayed edge on a buffered source variable; non-vectorized: no two
-        edges between one variable pair on a buffered source) it is a theorem, for any number of nodes, edges per
+(* ---- what holds: under the guards (Euler; non-vectorized: no two undelayed edges between one variable pair on a buffered
+        source; the sibling guard is trivially true since fix D70) it is a theorem, for any number of nodes, edges per
         source/target, delays and steps, both vectorize settings ---- *)
 Theorem C09_partial : forall c n, wf c = true -> guards c = true -> impl_run c n = Ok (spec_run c n).
 Proof. exact impl_refines_spec. Qed.
@@ -90,53 +90,45 @@ Theorem C09_refuted_heun : wf w_heun = true /\ g_delays_ge2 w_heun = true /\ g_e
 Proof. split; [|split; [|split]]; try (vm_compute; reflexivity). apply res_eqb_false_neq. vm_compute. reflexivity. Qed.
 Print Assumptions C09_refuted_heun.
 
-(* D15: an edge without delay that shares its source variable with a delayed edge is delayed by one step *)
+(* D15 / D24 / D34, repaired in /repo (fixes D70, D69; model switches Ring.fixed_D15, Ring.fixed_D34 = true).  Before the
+   repairs an edge without delay on a buffered source variable counted as one step (vectorized: whenever ANY unit of the merged
+   source vector had a delayed edge) and `delay: None` written out counted as one time unit; the former refutation witnesses are
+   now inside the guards and meet the specification (regression cases in corpus/C09: the D15, D24 and D34 files). *)
 Definition w_sibling := mkC dt8 false false [S1; T0; T0]
   [mkEdge 0 1 (mkq 2 1) (Delay (mkq 3 8)); mkEdge 0 2 (mkq 1 1) NoKey].
-Theorem C09_refuted_sibling : wf w_sibling = true /\ g_delays_ge2 w_sibling = true /\ g_no_undelayed_sibling w_sibling = false /\
-  impl_run w_sibling 6 <> Ok (spec_run w_sibling 6).
-Proof. split; [|split; [|split]]; try (vm_compute; reflexivity). apply res_eqb_false_neq. vm_compute. reflexivity. Qed.
-Print Assumptions C09_refuted_sibling.
-
-(* D24: vectorized, the same at the level of the merged source vector: another unit's undelayed edge is delayed *)
 Definition w_sibling_vec := mkC dt8 true false [S1; S1; T0; T0]
   [mkEdge 0 2 (mkq 2 1) (Delay (mkq 3 8)); mkEdge 1 3 (mkq 1 1) NoKey].
-Theorem C09_refuted_sibling_vec : wf w_sibling_vec = true /\ g_delays_ge2 w_sibling_vec = true /\
-  g_no_undelayed_sibling w_sibling_vec = false /\
-  impl_run w_sibling_vec 6 <> Ok (spec_run w_sibling_vec 6) /\
-  (* the non-vectorized compilation of the same circuit is right *)
-  impl_run (mkC dt8 false false (cnodes w_sibling_vec) (cedges w_sibling_vec)) 6 =
-    Ok (spec_run (mkC dt8 false false (cnodes w_sibling_vec) (cedges w_sibling_vec)) 6).
+Definition w_none := mkC dt8 false false [S1; T0] [mkEdge 0 1 (mkq 2 1) ExplNone].
+Example C09_fixed_sibling : guards w_sibling = true /\ guards w_sibling_vec = true /\ guards w_none = true /\
+  impl_run w_sibling 6 = Ok (spec_run w_sibling 6) /\ impl_run w_sibling_vec 6 = Ok (spec_run w_sibling_vec 6) /\
+  impl_run w_none 11 = Ok (spec_run w_none 11).
 Proof.
-  split; [vm_compute; reflexivity|]. split; [vm_compute; reflexivity|]. split; [vm_compute; reflexivity|]. split.
-  - apply res_eqb_false_neq. vm_compute. reflexivity.
-  - apply C09_partial; vm_compute; reflexivity.
+  split; [vm_compute; reflexivity|]. split; [vm_compute; reflexivity|]. split; [vm_compute; reflexivity|].
+  split; [|split]; apply C09_partial; vm_compute; reflexivity.
 Qed.
-Print Assumptions C09_refuted_sibling_vec.
+Print Assumptions C09_fixed_sibling.
+(* with the repairs the sibling guard holds of EVERY circuit: it is no longer a restriction *)
+Theorem C09_sibling_guard_trivial : forall c, g_no_undelayed_sibling c = true.
+Proof. exact sibling_guard_trivial. Qed.
+Print Assumptions C09_sibling_guard_trivial.
 
-(* D18 (loud): non-vectorized, a delayed and an undelayed edge, or two delayed edges, between one variable pair *)
+(* D18 (loud), what is left after D59/D68/D70: vectorize=False, two UNDELAYED edges between one variable pair on a buffered
+   source raise IndexError at the first call; the former witnesses (delayed + undelayed, two delays) now compile and are right *)
 Definition w_parallel := mkC dt8 false false [S1; T0]
   [mkEdge 0 1 (mkq 2 1) (Delay (mkq 3 8)); mkEdge 0 1 (mkq 1 1) NoKey].
 Definition w_parallel2 := mkC dt8 false false [S1; T0]
   [mkEdge 0 1 (mkq 2 1) (Delay (mkq 3 8)); mkEdge 0 1 (mkq 1 1) (Delay (mkq 5 8))].
-Theorem C09_refuted_parallel : wf w_parallel = true /\ wf w_parallel2 = true /\ g_delays_ge2 w_parallel2 = true /\
-  g_no_parallel_buffered w_parallel = false /\ g_no_parallel_buffered w_parallel2 = false /\
-  g_no_undelayed_sibling w_parallel2 = true /\
-  impl_run w_parallel 6 = ErrIndex /\ impl_run w_parallel2 6 = ErrIndex.
+Definition w_parallel3 := mkC dt8 false false [S1; T0; T0]
+  [mkEdge 0 1 (mkq 2 1) NoKey; mkEdge 0 1 (mkq 1 1) NoKey; mkEdge 0 2 (mkq 1 1) (Delay (mkq 3 8))].
+Theorem C09_refuted_parallel : wf w_parallel3 = true /\ g_delays_ge2 w_parallel3 = true /\
+  g_no_parallel_buffered w_parallel3 = false /\ impl_run w_parallel3 6 = ErrIndex /\
+  guards w_parallel = true /\ guards w_parallel2 = true.
 Proof. repeat split; vm_compute; reflexivity. Qed.
 Print Assumptions C09_refuted_parallel.
 
-(* `delay: None` written out on an edge is read as a delay of ONE TIME UNIT (8 steps at dt = 1/8) *)
-Definition w_none := mkC dt8 false false [S1; T0] [mkEdge 0 1 (mkq 2 1) ExplNone].
-Theorem C09_refuted_explicit_none : wf w_none = true /\ g_delays_ge2 w_none = true /\ g_no_explicit_none w_none = false /\
-  impl_run w_none 11 <> Ok (spec_run w_none 11) /\
-  res_eqb (impl_run w_none 11) (impl_run (mkC dt8 false false [S1; T0] [mkEdge 0 1 (mkq 2 1) (Delay (mkq 1 1))]) 11) = true.
-Proof. split; [|split; [|split; [|split]]]; try (vm_compute; reflexivity). apply res_eqb_false_neq. vm_compute. reflexivity. Qed.
-Print Assumptions C09_refuted_explicit_none.
-
 Theorem C09_full_refuted : ~ C09_full_statement.
 Proof.
-  intros H. destruct C09_refuted_sibling as [Hw [Hg [_ Hne]]]. apply Hne. apply H; assumption.
+  intros H. destruct C09_refuted_heun as [Hw [Hg [_ Hne]]]. apply Hne. apply H; assumption.
 Qed.
 Print Assumptions C09_full_refuted.
 
